@@ -8,7 +8,7 @@ require (
 	buf.build/gen/go/bufbuild/protovalidate/protocolbuffers/go v1.36.6-20250307204501-0409229c3780.1
 	github.com/iancoleman/strcase v0.3.0
 	github.com/pentops/j5 v0.0.0
-	google.golang.org/genproto/googleapis/api v0.0.0-20250324211829-b45e905df463
+	github.com/shopspring/decimal v1.4.0
 	google.golang.org/protobuf v1.36.6
 )
 
@@ -25,13 +25,14 @@ require (
 	github.com/mattn/go-isatty v0.0.20 // indirect
 	github.com/pentops/golib v0.0.0-20250107012216-1b5307b3bfe0 // indirect
 	github.com/pentops/log.go v0.0.0-20250304233315-e0210b7a6dc3 // indirect
-	github.com/shopspring/decimal v1.4.0 // indirect
 	github.com/stoewer/go-strcase v1.3.0 // indirect
 	golang.org/x/exp v0.0.0-20250305212735-054e65f0b394 // indirect
 	golang.org/x/sync v0.12.0 // indirect
 	golang.org/x/sys v0.31.0 // indirect
 	golang.org/x/text v0.23.0 // indirect
+	google.golang.org/genproto/googleapis/api v0.0.0-20250324211829-b45e905df463 // indirect
 	google.golang.org/genproto/googleapis/rpc v0.0.0-20250324211829-b45e905df463 // indirect
+	google.golang.org/grpc v1.71.0 // indirect
 	gopkg.in/yaml.v3 v3.0.1 // indirect
 )
 
